@@ -56,9 +56,17 @@ def run_case(cs):
     d = cs.dir()
     state = os.path.join(d, "state")
     work = os.path.join(d, "work")
-    sroot = os.path.join(state, "root")
-    root = os.path.join(work, "root")
+    # now and then a folder name that just fits into a manifest name (NNNN_<folder>_<18 chars>.mhl of at most 255 bytes)
+    long_names = rng.random() < 0.12
+    rname = "root" if not long_names or rng.random() < 0.4 else "r" * rng.randint(223, 227)
+    sroot = os.path.join(state, rname)
+    root = os.path.join(work, rname)
     nested = rng.choice([[], [], ["K"], ["K", "M"], ["K", "K/L"]])
+    if long_names and (rname == "root" or rng.random() < 0.3):
+        kname = "K" * rng.randint(223, 227)
+        nested = rng.choice([[kname], [kname, "M"]])
+    if long_names:
+        cs.count("scenarios_with_folder_names_of_223_to_227_bytes")
     tree = {s: None for s in nested}
     for s in [""] + nested:
         for i in range(rng.randint(1, 2)):
